@@ -19,13 +19,210 @@
         (vlen(bytes@) is None || vlen(bytes@).unwrap() > 10) ==> r is Err,
 @@ read_varint64 entry
     assert(bytes@.skip(0) =~= bytes@);
-@@ read_varint64_offset external
 @@ read_varint64_offset spec
     requires offset < bytes@.len(), vlen(bytes@.skip(offset as int)) is Some || bytes@.len() - offset >= 10
     ensures
         (vlen(bytes@.skip(offset as int)) is Some && vlen(bytes@.skip(offset as int)).unwrap() <= 10 && vval(bytes@.skip(offset as int)) <= u64::MAX)
             ==> (r is Ok && r.unwrap() == vval(bytes@.skip(offset as int))),
         (vlen(bytes@.skip(offset as int)) is None || vlen(bytes@.skip(offset as int)).unwrap() > 10) ==> r is Err,
+@@ read_varint64_offset entry
+    let ghost s = bytes@.skip(offset as int);
+    proof {
+        if vlen(s) is Some { lemma_vlen_bits(s); }
+        assert forall|j: int| 0 <= j < s.len() implies s[j] == #[trigger] bytes@[offset + j] by {}
+    }
+@@ read_varint64_offset before_return@top 1
+    proof {
+        let o = offset as int;
+        lemma_vprefix_at(bytes@, o, 1);
+        reveal_with_fuel(vsum_at, 11);
+        let b0 = bytes@[o + 0];
+        lemma_low_group(b0); let a0 = (b0 & 0x7f) as u32;
+        assert(b0 & 0x80 == 0 ==> b0 & 0x7f == b0) by(bit_vector);
+    }
+@@ read_varint64_offset before_return@top 2
+    proof {
+        let o = offset as int;
+        lemma_vprefix_at(bytes@, o, 2);
+        reveal_with_fuel(vsum_at, 11);
+        let b0 = bytes@[o + 0];
+        let b1 = bytes@[o + 1];
+        lemma_low_group(b0); let a0 = (b0 & 0x7f) as u32;
+        lemma_or_group7(a0, b1); let a1 = a0 | (((b1 & 0x7f) as u32) << 7);
+        assert(r0 == a1);
+    }
+@@ read_varint64_offset before_return@top 3
+    proof {
+        let o = offset as int;
+        lemma_vprefix_at(bytes@, o, 3);
+        reveal_with_fuel(vsum_at, 11);
+        let b0 = bytes@[o + 0];
+        let b1 = bytes@[o + 1];
+        let b2 = bytes@[o + 2];
+        lemma_low_group(b0); let a0 = (b0 & 0x7f) as u32;
+        lemma_or_group7(a0, b1); let a1 = a0 | (((b1 & 0x7f) as u32) << 7);
+        lemma_or_group14(a1, b2); let a2 = a1 | (((b2 & 0x7f) as u32) << 14);
+        assert(r0 == a2);
+    }
+@@ read_varint64_offset before_return@top 4
+    proof {
+        let o = offset as int;
+        lemma_vprefix_at(bytes@, o, 4);
+        reveal_with_fuel(vsum_at, 11);
+        let b0 = bytes@[o + 0];
+        let b1 = bytes@[o + 1];
+        let b2 = bytes@[o + 2];
+        let b3 = bytes@[o + 3];
+        lemma_low_group(b0); let a0 = (b0 & 0x7f) as u32;
+        lemma_or_group7(a0, b1); let a1 = a0 | (((b1 & 0x7f) as u32) << 7);
+        lemma_or_group14(a1, b2); let a2 = a1 | (((b2 & 0x7f) as u32) << 14);
+        lemma_or_group21(a2, b3); let a3 = a2 | (((b3 & 0x7f) as u32) << 21);
+        assert(r0 == a3);
+    }
+@@ read_varint64_offset before_return@top 5
+    proof {
+        let o = offset as int;
+        lemma_vprefix_at(bytes@, o, 5);
+        reveal_with_fuel(vsum_at, 11);
+        let b0 = bytes@[o + 0];
+        let b1 = bytes@[o + 1];
+        let b2 = bytes@[o + 2];
+        let b3 = bytes@[o + 3];
+        let b4 = bytes@[o + 4];
+        lemma_low_group(b0); let a0 = (b0 & 0x7f) as u32;
+        lemma_or_group7(a0, b1); let a1 = a0 | (((b1 & 0x7f) as u32) << 7);
+        lemma_or_group14(a1, b2); let a2 = a1 | (((b2 & 0x7f) as u32) << 14);
+        lemma_or_group21(a2, b3); let a3 = a2 | (((b3 & 0x7f) as u32) << 21);
+        assert(r0 == a3);
+        lemma_low_group(b4); let c0 = (b4 & 0x7f) as u32;
+        assert(r1 == c0);
+        lemma_or_28(r0, r1);
+    }
+@@ read_varint64_offset before_return@top 6
+    proof {
+        let o = offset as int;
+        lemma_vprefix_at(bytes@, o, 6);
+        reveal_with_fuel(vsum_at, 11);
+        let b0 = bytes@[o + 0];
+        let b1 = bytes@[o + 1];
+        let b2 = bytes@[o + 2];
+        let b3 = bytes@[o + 3];
+        let b4 = bytes@[o + 4];
+        let b5 = bytes@[o + 5];
+        lemma_low_group(b0); let a0 = (b0 & 0x7f) as u32;
+        lemma_or_group7(a0, b1); let a1 = a0 | (((b1 & 0x7f) as u32) << 7);
+        lemma_or_group14(a1, b2); let a2 = a1 | (((b2 & 0x7f) as u32) << 14);
+        lemma_or_group21(a2, b3); let a3 = a2 | (((b3 & 0x7f) as u32) << 21);
+        assert(r0 == a3);
+        lemma_low_group(b4); let c0 = (b4 & 0x7f) as u32;
+        lemma_or_group7(c0, b5); let c1 = c0 | (((b5 & 0x7f) as u32) << 7);
+        assert(r1 == c1);
+        lemma_or_28(r0, r1);
+    }
+@@ read_varint64_offset before_return@top 7
+    proof {
+        let o = offset as int;
+        lemma_vprefix_at(bytes@, o, 7);
+        reveal_with_fuel(vsum_at, 11);
+        let b0 = bytes@[o + 0];
+        let b1 = bytes@[o + 1];
+        let b2 = bytes@[o + 2];
+        let b3 = bytes@[o + 3];
+        let b4 = bytes@[o + 4];
+        let b5 = bytes@[o + 5];
+        let b6 = bytes@[o + 6];
+        lemma_low_group(b0); let a0 = (b0 & 0x7f) as u32;
+        lemma_or_group7(a0, b1); let a1 = a0 | (((b1 & 0x7f) as u32) << 7);
+        lemma_or_group14(a1, b2); let a2 = a1 | (((b2 & 0x7f) as u32) << 14);
+        lemma_or_group21(a2, b3); let a3 = a2 | (((b3 & 0x7f) as u32) << 21);
+        assert(r0 == a3);
+        lemma_low_group(b4); let c0 = (b4 & 0x7f) as u32;
+        lemma_or_group7(c0, b5); let c1 = c0 | (((b5 & 0x7f) as u32) << 7);
+        lemma_or_group14(c1, b6); let c2 = c1 | (((b6 & 0x7f) as u32) << 14);
+        assert(r1 == c2);
+        lemma_or_28(r0, r1);
+    }
+@@ read_varint64_offset before_return@top 8
+    proof {
+        let o = offset as int;
+        lemma_vprefix_at(bytes@, o, 8);
+        reveal_with_fuel(vsum_at, 11);
+        let b0 = bytes@[o + 0];
+        let b1 = bytes@[o + 1];
+        let b2 = bytes@[o + 2];
+        let b3 = bytes@[o + 3];
+        let b4 = bytes@[o + 4];
+        let b5 = bytes@[o + 5];
+        let b6 = bytes@[o + 6];
+        let b7 = bytes@[o + 7];
+        lemma_low_group(b0); let a0 = (b0 & 0x7f) as u32;
+        lemma_or_group7(a0, b1); let a1 = a0 | (((b1 & 0x7f) as u32) << 7);
+        lemma_or_group14(a1, b2); let a2 = a1 | (((b2 & 0x7f) as u32) << 14);
+        lemma_or_group21(a2, b3); let a3 = a2 | (((b3 & 0x7f) as u32) << 21);
+        assert(r0 == a3);
+        lemma_low_group(b4); let c0 = (b4 & 0x7f) as u32;
+        lemma_or_group7(c0, b5); let c1 = c0 | (((b5 & 0x7f) as u32) << 7);
+        lemma_or_group14(c1, b6); let c2 = c1 | (((b6 & 0x7f) as u32) << 14);
+        lemma_or_group21(c2, b7); let c3 = c2 | (((b7 & 0x7f) as u32) << 21);
+        assert(r1 == c3);
+        lemma_or_28(r0, r1);
+    }
+@@ read_varint64_offset before_return@top 9
+    proof {
+        let o = offset as int;
+        lemma_vprefix_at(bytes@, o, 9);
+        reveal_with_fuel(vsum_at, 11);
+        let b0 = bytes@[o + 0];
+        let b1 = bytes@[o + 1];
+        let b2 = bytes@[o + 2];
+        let b3 = bytes@[o + 3];
+        let b4 = bytes@[o + 4];
+        let b5 = bytes@[o + 5];
+        let b6 = bytes@[o + 6];
+        let b7 = bytes@[o + 7];
+        let b8 = bytes@[o + 8];
+        lemma_low_group(b0); let a0 = (b0 & 0x7f) as u32;
+        lemma_or_group7(a0, b1); let a1 = a0 | (((b1 & 0x7f) as u32) << 7);
+        lemma_or_group14(a1, b2); let a2 = a1 | (((b2 & 0x7f) as u32) << 14);
+        lemma_or_group21(a2, b3); let a3 = a2 | (((b3 & 0x7f) as u32) << 21);
+        assert(r0 == a3);
+        lemma_low_group(b4); let c0 = (b4 & 0x7f) as u32;
+        lemma_or_group7(c0, b5); let c1 = c0 | (((b5 & 0x7f) as u32) << 7);
+        lemma_or_group14(c1, b6); let c2 = c1 | (((b6 & 0x7f) as u32) << 14);
+        lemma_or_group21(c2, b7); let c3 = c2 | (((b7 & 0x7f) as u32) << 21);
+        assert(r1 == c3);
+        lemma_or_28(r0, r1);
+        lemma_low_group(b8); lemma_or_56(r0 as u64 | ((r1 as u64) << 28), r2);
+    }
+@@ read_varint64_offset before_return@top 10
+    proof {
+        let o = offset as int;
+        lemma_vprefix_at(bytes@, o, 10);
+        reveal_with_fuel(vsum_at, 11);
+        let b0 = bytes@[o + 0];
+        let b1 = bytes@[o + 1];
+        let b2 = bytes@[o + 2];
+        let b3 = bytes@[o + 3];
+        let b4 = bytes@[o + 4];
+        let b5 = bytes@[o + 5];
+        let b6 = bytes@[o + 6];
+        let b7 = bytes@[o + 7];
+        let b8 = bytes@[o + 8];
+        let b9 = bytes@[o + 9];
+        lemma_low_group(b0); let a0 = (b0 & 0x7f) as u32;
+        lemma_or_group7(a0, b1); let a1 = a0 | (((b1 & 0x7f) as u32) << 7);
+        lemma_or_group14(a1, b2); let a2 = a1 | (((b2 & 0x7f) as u32) << 14);
+        lemma_or_group21(a2, b3); let a3 = a2 | (((b3 & 0x7f) as u32) << 21);
+        assert(r0 == a3);
+        lemma_low_group(b4); let c0 = (b4 & 0x7f) as u32;
+        lemma_or_group7(c0, b5); let c1 = c0 | (((b5 & 0x7f) as u32) << 7);
+        lemma_or_group14(c1, b6); let c2 = c1 | (((b6 & 0x7f) as u32) << 14);
+        lemma_or_group21(c2, b7); let c3 = c2 | (((b7 & 0x7f) as u32) << 21);
+        assert(r1 == c3);
+        lemma_or_28(r0, r1);
+        lemma_low_group(b8); lemma_or_last((b8 & 0x7f) as u32, b9);
+        if vval(bytes@.skip(o)) <= u64::MAX { lemma_or_56(r0 as u64 | ((r1 as u64) << 28), r2); }
+    }
 @@ inner_sizeof_varint spec
     ensures r == enc_len(v as nat), r == enc(v as nat).len()
 @@ inner_sizeof_varint entry
